@@ -47,6 +47,19 @@ def bitsOfNat : Nat → Nat → Val
   | 0, _ => []
   | w+1, n => (n % 2 == 1) :: bitsOfNat w (n / 2)
 
+/-- two's complement value -/
+def intOfBits (v : Val) : Int :=
+  if v.getLast?.getD false then (natOfBits v : Int) - (2 ^ v.length : Nat) else natOfBits v
+
+/-- expansion policy of a signal read port (`Expansion::zero / one / sign`) -/
+inductive Pol where
+  | zero | one | sign
+  deriving DecidableEq, Repr, Inhabited
+
+/-- `Node_Rewire::setPadTo(w, …)`: extend at the MSB side with zeros / ones / copies of the MSB -/
+def padTo (p : Pol) (w : Nat) (v : Val) : Val :=
+  v ++ List.replicate (w - v.length) (match p with | .zero => false | .one => true | .sign => v.getLast?.getD false)
+
 /-- value of a `Bit` used as a condition -/
 def truthy (v : Val) : Bool := v.head?.getD false
 
@@ -67,6 +80,7 @@ inductive Op2 where
   | and | or | xor     -- Bit×Bit→Bit, UInt w×UInt w→UInt w
   | add | sub          -- UInt w×UInt w→UInt w (wrap around)
   | eq | ne | lt       -- UInt w×UInt w→Bit
+  | slt                -- SInt w×SInt w→Bit (signed); only created for integer-literal variables (C05/ModelX.lean)
   deriving DecidableEq, Repr
 
 /-- operator semantics; shared by the interpreter and by the netlist evaluation (operators are property C03's business) -/
@@ -82,6 +96,7 @@ def Op2.sem : Op2 → Val → Val → Val
   | .eq, a, b => [a == b]
   | .ne, a, b => [a != b]
   | .lt, a, b => [decide (natOfBits a < natOfBits b)]
+  | .slt, a, b => [decide (intOfBits a < intOfBits b)]
 
 def Op2.resTy : Op2 → Ty → Ty → Option Ty
   | .and, a, b | .or, a, b | .xor, a, b => if a = b then some a else none
@@ -105,6 +120,21 @@ inductive Expr where
   | op2 (o : Op2) (a b : Expr)
   deriving Repr
 
+/-- kind of an integer-literal variable: `UInt` with policy zero / `SInt` (policy sign) / `UInt` with policy one -/
+inductive IKind where
+  | u0 | s | u1
+  deriving DecidableEq, Repr, Inhabited
+
+/-- statements about width-less, policy-carrying variables (own index space); semantics in C05/ModelX.lean -/
+inductive IStmt where
+  | declLit (k : IKind) (v : Int)        -- `UInt x = 5;` / `SInt x{-3};`
+  | declExt (k : IKind) (e : Expr)       -- `UInt x = zext(e);` / `UInt x = oext(e);`
+  | declCopy (y : Nat)                   -- `UInt x = y;`
+  | assignLit (x : Nat) (v : Int)        -- `x = 200;`
+  | assignVar (x y : Nat)                -- `x = y;`
+  | declCmp (o : Op2) (x y : Nat)        -- `Bit t = (x == y);` (t is an ordinary signal)
+  deriving Repr
+
 /-- statement list in continuation form (last argument = the statements that follow) -/
 inductive Prog where
   | done
@@ -115,6 +145,7 @@ inductive Prog where
   | elseS (body : Prog) (k : Prog)                      -- `ELSE { body }`
   | elseifS (c : Expr) (body : Prog) (k : Prog)         -- `ELSEIF (c) { body }`      one scope (macro)
   | elseIf2 (c : Expr) (body : Prog) (k : Prog)         -- `ELSE IF (c) { body }`     ELSE scope around an IF scope
+  | istmt (s : IStmt) (k : Prog)                        -- integer-literal variables: outside `run` / `build`, see `runX` / `buildX`
   deriving Repr
 
 /-! ## Specification: the sequential interpreter -/
@@ -207,6 +238,7 @@ def run : Prog → List Val → Option Bool → Option (List Val)
         let vc ← evalE env c
         let env' ← if truthy vc then dropLocals env.length (run body env none) else some env
         run k env' (some (truthy vc))
+  | .istmt _ _, _, _ => none     -- integer-literal variables: see `runX` (C05/ModelX.lean)
 
 /-! ## The netlist -/
 
@@ -222,6 +254,7 @@ inductive Node where
   | op1 (o : Op1) (a : Nat)                          -- operator nodes of user expressions
   | op2 (o : Op2) (a b : Nat)
   | dflt (d : Nat)                                   -- Node_Default whose signal input is the declared variable itself (resolved: see `build`)
+  | pad (a : Nat) (w : Nat) (p : Pol)                -- Node_Rewire::setPadTo (only created for integer-literal variables, C05/ModelX.lean)
   deriving Repr, Inhabited
 
 abbrev Nodes := Array Node
@@ -246,6 +279,7 @@ def nodeSem (ρ : List Val) (vs : Array Val) : Node → Val
   | .op1 o a => o.sem (vs.getD a [])
   | .op2 o a b => o.sem (vs.getD a []) (vs.getD b [])
   | .dflt d => vs.getD d []
+  | .pad a w p => padTo p w (vs.getD a [])
 
 /-- values of all nodes under the input valuation `ρ` -/
 def evalNodes (ρ : List Val) (ns : Nodes) : Array Val :=
@@ -552,6 +586,7 @@ def build : Prog → BState → Option BState
       let B4 ← popScope B3 B.sigs.length
       let B5 ← popScope B4 B.sigs.length
       build k B5
+  | .istmt _ _, _ => none        -- integer-literal variables: see `buildX` (C05/ModelX.lean)
 
 /-- the design before the first statement: one input pin per entry of `ins`, each read into a variable (`UInt v = pinIn(w)`) -/
 def initState (ins : List Ty) : BState :=
